@@ -396,3 +396,90 @@ Section cross.
     unfold fanin. by rewrite HkA.
   Qed.
 End cross.
+
+(* ================================================================ one supergate: gates, members, and how the gates fix the node set *)
+Section one_sg.
+  Context (L : circuit) (rank : string → nat).
+  Hypothesis Hclosed : closed L.
+  Hypothesis Hrank : ∀ n i f, L !! n = Some i → f ∈ n_fi i → rank f < rank n.
+  Hypothesis Hbound : ∀ n i, L !! n = Some i → size (n_fi i) ≤ 2.
+  Hypothesis Hconst : ∀ n i, L !! n = Some i → is_const (n_ty i) = true → n_fi i = ∅.
+  Hypothesis Hsrc : ∀ n i, L !! n = Some i → n_ty i = Input → n_fi i = ∅.
+  Context (o : string) (HoL : o ∈ dom L).
+  Hypothesis Hup : up_ok L o.
+  Let co := cone L o.
+  Hypothesis Hav : avoid_ok co o (avoid_table co o).
+  Let sd := sdom_table (avoid_table co o).
+  Let kids := kids_of co o sd.
+  Context (r : string) (S : gset string).
+  Hypothesis Hg : grow_ok o sd kids (r, S).
+  Let sg := mk_sg co r S.
+
+  Let C1 : ∀ x f, x ∈ dom co → f ∈ fanin co x → f ∈ dom co ∧ rank f < rank x.
+  Proof. intros x f. eapply (cone_C1 L o rank); eassumption. Qed.
+  Let C2 : ∀ P : string → Prop, P o → (∀ x f, x ∈ dom co → P x → f ∈ fanin co x → P f) → ∀ x, x ∈ dom co → P x.
+  Proof. intros P. eapply (cone_C2 L o rank); eassumption. Qed.
+  Let C3 : o ∈ dom co.
+  Proof. eapply (cone_C3 L o); eassumption. Qed.
+  Let fanin_co z : z ∈ dom co → fanin co z = fanin L z.
+  Proof. intros Hz. unfold co. eapply (cone_fanin L o); try eassumption. eapply (cone_dom L o); eassumption. Qed.
+
+  Lemma gates_gateof g : g ∈ gates (c_g sg) ↔ gateof co S g.
+  Proof.
+    split.
+    - intros [Hd Hni]%elem_of_difference. pose proof (mk_sg_dom co r S g Hd) as HgS. split; [done|].
+      assert (g ∈ dom co) as [k Hk]%elem_of_dom by (eapply grow_member_dom; hyp).
+      destruct (mk_sg_lookup_intro co r S g k HgS Hk) as (i & Hi & Hty). exists k. split; [done|].
+      assert (n_ty i ≠ Input) as HnI. { intros E. apply Hni. apply elem_of_inputs. eauto. }
+      rewrite Hty in HnI. destruct (is_const (n_ty k)) eqn:Hc; [split; [done|by left]|].
+      case_bool_decide as Hemp; [done|]. split; [done|]. right. apply set_choose_L in Hemp as [f Hf]. exists f. set_solver.
+    - intros [HgS (k & Hk & HnI & Hop)]. destruct (mk_sg_lookup_intro co r S g k HgS Hk) as (i & Hi & Hty).
+      apply elem_of_difference. split; [by eapply elem_of_dom_2|]. intros (i' & Hi' & HI)%elem_of_inputs.
+      assert (i' = i) as -> by (unfold sg in Hi'; congruence). rewrite Hty in HI.
+      destruct Hop as [Hc|(f & Hf & HfS)]; [by rewrite Hc in HI|].
+      destruct (is_const (n_ty k)); [done|]. rewrite bool_decide_eq_false_2 in HI; [done|]. set_solver.
+  Qed.
+  Lemma sg_dom x : x ∈ dom (c_g sg) ↔ x ∈ S.
+  Proof.
+    split; [apply mk_sg_dom|]. intros HxS. assert (x ∈ dom co) as [k Hk]%elem_of_dom by (eapply grow_member_dom; hyp).
+    destruct (mk_sg_lookup_intro co r S x k HxS Hk) as (i & Hi & _). by eapply elem_of_dom_2.
+  Qed.
+  (* a member that feeds a member: the consumer is a gate *)
+  Lemma consumer_gate w x : w ∈ S → x ∈ S → x ∈ fanin co w → gateof co S w.
+  Proof.
+    intros Hw Hx Hf. split; [done|]. assert (w ∈ dom co) as Hwd by (eapply grow_member_dom; hyp).
+    pose proof Hwd as [k Hk]%elem_of_dom. pose proof Hk as Hk'. apply cone_lookup in Hk' as (_ & kL & HkL & Ht & _).
+    assert (n_fi k = n_fi kL) as Hfi. { pose proof (fanin_co w Hwd) as E. unfold fanin in E. by rewrite Hk, HkL in E. }
+    assert (x ∈ n_fi k) as Hxk. { unfold fanin in Hf. by rewrite Hk in Hf. }
+    exists k. split; [done|]. split.
+    - rewrite Ht. intros E. rewrite Hfi, (Hsrc w kL HkL E) in Hxk. by apply elem_of_empty in Hxk.
+    - right. eauto.
+  Qed.
+  Lemma root_gate : ∀ m g, rank r - rank g = m → gateof co S g → gateof co S r.
+  Proof.
+    intros m. induction (lt_wf m) as [m _ IH]. intros g Hm Hgg. destruct (decide (g = r)) as [->|Hgr]; [done|].
+    destruct Hgg as [HgS _].
+    destruct (member_fanout_inside co o rank C1 C2 C3 Hav r S g Hg HgS Hgr) as (w & Hw & Hgw).
+    assert (w ∈ dom co) as Hwd by (eapply grow_member_dom; hyp). destruct (C1 w g Hwd Hgw) as [_ Hrk].
+    pose proof (member_rank co o rank C1 C2 C3 Hav r S w Hg Hw).
+    eapply (IH (rank r - rank w)); [lia|done|]. exact (consumer_gate w g Hw HgS Hgw).
+  Qed.
+  (* the node set is fixed by the gate set *)
+  Lemma dom_by_gates x : (∃ g, g ∈ gates (c_g sg)) →
+    (x ∈ dom (c_g sg) ↔ x ∈ gates (c_g sg) ∨ ∃ g, g ∈ gates (c_g sg) ∧ x ∈ fanin L g).
+  Proof.
+    intros [g0 Hg0]. pose proof (root_gate _ g0 eq_refl (proj1 (gates_gateof g0) Hg0)) as Hrg. split.
+    - intros Hx%sg_dom. destruct (decide (x ∈ gates (c_g sg))) as [|Hng]; [by left|right].
+      assert (x ≠ r) as Hxr. { intros ->. apply Hng. by apply gates_gateof. }
+      destruct (member_fanout_inside co o rank C1 C2 C3 Hav r S x Hg Hx Hxr) as (w & Hw & Hxw).
+      exists w. split; [apply gates_gateof; exact (consumer_gate w x Hw Hx Hxw)|]. rewrite <- fanin_co; [done|eapply grow_member_dom; hyp].
+    - intros [[Hd _]%elem_of_difference|(g & Hgg & Hxg)]; [done|]. apply sg_dom.
+      apply gates_gateof in Hgg as [HgS (k & Hk & _ & Hop)]. assert (g ∈ dom co) as Hgd by (by eapply elem_of_dom_2).
+      rewrite <- (fanin_co g Hgd) in Hxg.
+      destruct Hop as [Hc|(f & Hf & HfS)].
+      + exfalso. pose proof Hk as Hk'. apply cone_lookup in Hk' as (_ & kL & HkL & Ht & _). rewrite Ht in Hc.
+        rewrite (fanin_co g Hgd) in Hxg. unfold fanin in Hxg. rewrite HkL in Hxg. simpl in Hxg. rewrite (Hconst g kL HkL Hc) in Hxg.
+        by apply elem_of_empty in Hxg.
+      + eapply (grown_closed co o rank C1 C2 C3 Hav r S g f x Hg HgS); try hyp; [apply cone_bound; hyp|unfold fanin; by rewrite Hk].
+  Qed.
+End one_sg.
